@@ -253,7 +253,7 @@ class Source:
         return [self._item_extent(c) for c in cands]
 
     def _find_impl(self, header):
-        want = " ".join(header.split())
+        want = [t.text for t in code_toks(tokenize(header))]
         ct = self.ct
         depth = 0
         for i, t in enumerate(ct):
@@ -265,8 +265,8 @@ class Source:
                 j = i
                 while j < len(ct) and not (ct[j].kind == "punct" and ct[j].text == "{"):
                     j += 1
-                head = _join(ct[i:j])
-                if head == want or _strip_generics(head) == want:
+                head = [t.text for t in ct[i:j]]
+                if head == want:
                     k = match_close(ct, j)
                     return (j + 1, k)
         return None
